@@ -25,7 +25,8 @@ type Actor struct {
 	sched  *Sched
 	// Busy is set by the actor while it is inside a call that holds a sync mutex
 	// other actors may need (see Sched.Blockers).
-	Group string
+	Group   string
+	Adopted bool // a goroutine of the system under test parked at an adoption site
 }
 
 // Sched owns the actors of one run.
@@ -35,6 +36,7 @@ type Sched struct {
 	byGID   map[uint64]*Actor
 	Step    int
 	Sites   map[string]bool // enabled yield sites (nil = all)
+	Adopt   map[string]bool // sites at which goroutines not spawned by the scheduler are adopted as actors
 	Trace   []int           // actor id released at each step
 	SiteHit map[string]int
 }
@@ -53,8 +55,14 @@ func init() {
 			return
 		}
 		s.mu.Lock()
-		a := s.byGID[curGID()]
+		gid := curGID()
+		a := s.byGID[gid]
 		enabled := s.Sites == nil || s.Sites[site]
+		if a == nil && enabled && s.Adopt[site] {
+			a = &Actor{ID: len(s.actors), Name: "adopted:" + site, gate: make(chan struct{}), sched: s, Adopted: true}
+			s.actors = append(s.actors, a)
+			s.byGID[gid] = a
+		}
 		if a != nil && enabled {
 			s.SiteHit[site]++
 		}
@@ -151,7 +159,7 @@ func (s *Sched) AllDone() bool {
 	s.mu.Lock()
 	defer s.mu.Unlock()
 	for _, a := range s.actors {
-		if !a.done {
+		if !a.done && !a.Adopted {
 			return false
 		}
 	}
@@ -180,3 +188,6 @@ func (s *Sched) StepNow() int { s.mu.Lock(); defer s.mu.Unlock(); return s.Step 
 
 // WhoAmI returns the actor of the calling goroutine (nil for non-actors).
 func (s *Sched) WhoAmI() *Actor { s.mu.Lock(); defer s.mu.Unlock(); return s.byGID[curGID()] }
+
+// DisableSites turns every yield site off (teardown).
+func (s *Sched) DisableSites() { s.mu.Lock(); s.Sites = map[string]bool{}; s.mu.Unlock() }
